@@ -6,9 +6,10 @@ use std::collections::BTreeMap;
 use url::form_urlencoded::parse as parse_query;
 
 const URL_ENCODE_SET: &AsciiSet = &CONTROLS.add(b' ').add(b'"').add(b'#').add(b'<').add(b'>');
-const QUERY_ENCODE_SET: &AsciiSet = &CONTROLS.add(b' ').add(b'"').add(b'#').add(b'<').add(b'>').add(b'+');
+// A decoded `%` is written `%25`: left as it is, the value `%20` could not be told from a space
+const QUERY_ENCODE_SET: &AsciiSet = &CONTROLS.add(b' ').add(b'"').add(b'#').add(b'<').add(b'>').add(b'+').add(b'%');
 // Skipped params are put back into a target url: what delimits params or starts an escape stays encoded there
-const SKIPPED_ENCODE_SET: &AsciiSet = &QUERY_ENCODE_SET.add(b'%').add(b'&').add(b'=');
+const SKIPPED_ENCODE_SET: &AsciiSet = &QUERY_ENCODE_SET.add(b'&').add(b'=');
 
 #[derive(Serialize, Deserialize, Debug, Clone, Hash)]
 pub struct PathAndQueryWithSkipped {
